@@ -172,7 +172,8 @@ def parse_kani(out):
                            desc=m.group(4), loc=m.group(5).strip()))
     verdict = None
     cbmc_died = bool(re.search(r"CBMC timed out|CBMC failed|CBMC crashed|Killed|SIGKILL|std::bad_alloc", out))
-    if cbmc_died:
+    status_error = len(re.findall(r"- Status: ERROR", out))
+    if cbmc_died or status_error:
         verdict = None
     elif "VERIFICATION:- SUCCESSFUL" in out:
         verdict = "SUCCESSFUL"
@@ -188,7 +189,7 @@ def parse_kani(out):
                 variables=int(vars_[-1][0]) if vars_ else None,
                 clauses=int(vars_[-1][1]) if vars_ else None,
                 timed_out=("timed out" in out.lower()), cbmc_died=cbmc_died,
-                oom=bool(re.search(r"out of memory|Status: ERROR|std::bad_alloc|memory exhausted", out)),
+                oom=bool(re.search(r"out of memory|Status: ERROR|std::bad_alloc|memory exhausted|ran out of memory", out)),
                 compile_error=bool(re.search(r"^error(\[E\d+\])?:", out, re.M)) and verdict is None)
 
 
@@ -501,6 +502,10 @@ def check_property(pid, prop, groups, tier, seed, jobs, update_hints=False, only
     hs.sort(key=lambda h: -h.cap)
     hints = json.load(open(HINTS)) if os.path.exists(HINTS) else {}
     known = load_known()
+    pre_problem = None
+    if prop.get("pre"):
+        import spec as _spec
+        pre_problem = getattr(_spec, prop["pre"])()
     used_groups = {h.group for h in hs}
     for gk in used_groups:
         prepare_group(groups[gk])
@@ -517,6 +522,8 @@ def check_property(pid, prop, groups, tier, seed, jobs, update_hints=False, only
     results.sort(key=lambda r: r.h.name)
 
     violations, known_hits, inconcl = [], [], []
+    if pre_problem:
+        inconcl.append(("pre-check", pre_problem))
     for r in results:
         h, g = r.h, groups[r.h.group]
         if r.status == "INCONCLUSIVE":
